@@ -215,6 +215,8 @@ class Inliner:
                 continue
             if not f.name.startswith("_") or f.name.startswith("__"):
                 continue
+            if any(isinstance(d, ast.Call) and A.call_name(d) == "register" for d in f.node.decorator_list):
+                continue          # a registry entry (dispatch-table member), judged by the rules as such - not a helper
             body = simple_shape(f.node)
             if body is not None:
                 self.candidates[q] = (f, body)
